@@ -924,7 +924,7 @@ func init() {
 			return 8
 		},
 		MaxPar:      8,
-		Cases:       func(r *obs.Run) int { return r.Share(r.Pick(4000, 64000)) },
+		Cases:       func(r *obs.Run) int { return r.Share(r.Pick(4000, 150000)) },
 		Setup:       func(r *obs.Run) { r.WatchDeadlock(5*time.Second, 2*time.Minute) },
 		Case:        c19Case,
 		MinDistinct: func(t string) int { return 1200 },
